@@ -5,7 +5,7 @@ sys.path.insert(0, os.path.join(common.VERIF, "gen"))
 import dwarfgen
 
 PID = "C07"
-WIDTH = {"data1": 8, "data2": 16, "data4": 32, "data8": 64, "block1": 32}
+WIDTH = {"data1": 8, "data2": 16, "data4": 32, "data8": 64, "block1": 32, "block1x1": 8, "block1x2": 16, "block1x8": 64}
 ATE = {"signed": 5, "unsigned": 7, "boolean": 2, "signed_char": 6, "unsigned_char": 8, "float": 4}
 T = {"cu": 0x11, "base": 0x24, "typedef": 0x16, "const": 0x26, "volatile": 0x35, "enum": 0x04, "enr": 0x28, "var": 0x34,
      "pointer": 0x0f, "ptrmember": 0x1f, "struct": 0x13, "tvp": 0x30}
@@ -34,8 +34,8 @@ def build_desc_forest(descs):
             cv = {"name": AT["const_value"], "form": "sdata", "value": val}
         elif d["form"] == "udata":
             cv = {"name": AT["const_value"], "form": "udata", "value": raw}
-        elif d["form"] == "block1":
-            cv = {"name": AT["const_value"], "form": "block1", "value": list(raw.to_bytes(4, "little"))}
+        elif d["form"].startswith("block1"):
+            cv = {"name": AT["const_value"], "form": "block1", "value": list(raw.to_bytes(w // 8, "little"))}
         else:
             cv = {"name": AT["const_value"], "form": d["form"], "value": raw}
         def base():
